@@ -5,6 +5,30 @@ import z3
 from contracts.common import OPTNUM
 
 
+DECODE_ORACLE = '''
+from aiocoap.message import Message
+from aiocoap import error
+
+def oracle(args, result, exc):
+    b = args['rawdata']
+    p = parse_datagram(b)
+    if exc is not None:
+        if not isinstance(exc, error.UnparsableMessage):
+            return 'exception %r escapes the parser' % (exc,)
+        if p is not None and not any(is_string_option(n) and not valid_utf8(v) for n, v in p[4]):
+            return 'well-formed datagram rejected: %r' % (exc,)
+        return None
+    if p is None:
+        return 'malformed datagram accepted'
+    got = (int(result.mtype), int(result.code), result.mid, result.token,
+           [(int(o.number), o.encode()) for o in result.opt.option_list()], result.payload)
+    exp = (p[0], p[1], p[2], p[3], [(n, v) for n, v in p[4]], p[5])
+    if got[:4] != exp[:4] or got[5] != exp[5] or [n for n, _ in got[4]] != [n for n, _ in exp[4]]:
+        return 'fields differ from the RFC reading: %r vs %r' % (got, exp)
+    return None
+'''
+
+
 def register(reg, prog):
     reg.python_specs(prog, 'specs.rfc7252')
     P = ['C01']
@@ -82,7 +106,14 @@ def register(reg, prog):
             goals.append(('added-to-self', adds[0][1].t == ex.spec_val(s, 'self').t))
         return goals
 
-    reg.contract('aiocoap.options:Options.decode',
+    def log_opt_decode(ex, st, env, result):
+        st.log.append(('opt_decode', env['self'], env['rawdata'], result))
+
+    def log_opt_decode_exc(ex, st, env, cls):
+        st.log.append(('opt_decode_raised', env['self'], env['rawdata']))
+
+    reg.contract('aiocoap.options:Options.decode', ghost=log_opt_decode, ghost_exc=log_opt_decode_exc,
+                 modifies=['dict:self._options', '*lists'],
                  params={'rawdata': BYTES}, result=BYTES,
                  raises={'UnparsableMessage': "len(head(rawdata)) > 0 and head(rawdata)[0] != 255 and (parse_one(head(option_number), head(rawdata)) is None or (is_string_option(parse_one(head(option_number), head(rawdata))[0]) and not valid_utf8(parse_one(head(option_number), head(rawdata))[1])))"},
                  only_raises=True,
@@ -92,3 +123,97 @@ def register(reg, prog):
                  replay={'kind': 'call', 'setup': 'from aiocoap.options import Options', 'self': 'Options()',
                          'call': 'self_.decode(rawdata)'},
                  properties=P)
+
+    # ---- encode side
+    reg.specfuncs['joined'] = lambda ex, st, l: ex.list_joined(st, l)
+
+    reg.contract('aiocoap.optiontypes:OptionType.encode', result=BYTES, verify=False, properties=P,
+                 trusted_reason='interface contract of the abstract method; every concrete override is verified against its format spec below',
+                 ensures={})
+    reg.contract('aiocoap.options:Options.option_list', result=Seq(Ref('OptionType')), verify=False, properties=P,
+                 trusted_reason='sorted()/itertools.chain are not modelled; sortedness by option number is assumed and conformance-tested natively',
+                 ensures={'sorted': 'forall(j, 0, len(result) - 1, result[j].number <= result[j + 1].number)'})
+
+    def log_opt_encode(ex, st, env, result):
+        st.log.append(('opt_encode', env['self'], result))
+
+    reg.contract('aiocoap.options:Options.encode', result=BYTES, properties=P, ghost=log_opt_encode,
+                 loop_steps={0: ["joined(data) == head(joined(data)) + enc1(head(current_opt_num), option.number, optiondata)",
+                                 "current_opt_num == option.number"]},
+                 invariants={0: ["current_opt_num >= 0"]},
+                 raises={'ValueError': MAY},
+                 raises_post={'ValueError': {'only-if-not-encodable': "not (0 <= cur(option).number - head(current_opt_num) < 65805 and len(cur(optiondata)) < 65805)"}},
+                 only_raises=True,
+                 loop_entry={0: ["joined(data) == b''", "current_opt_num == 0"]},
+                 ensures={'join': "result == cur(joined(data))"})
+
+    reg.contract('aiocoap.optiontypes:_to_minimum_bytes', params={'value': INT}, result=BYTES, properties=P,
+                 requires=['0 <= value < 2**32'],
+                 ensures={'value': 'be_value(result) == value',
+                          'minimal': 'implies(len(result) > 0, result[0] != 0)',
+                          'zero': '(len(result) == 0) == (value == 0)',
+                          'length': 'len(result) <= 4'},
+                 only_raises=True, replay='pure')
+    reg.contract('aiocoap.optiontypes:OpaqueOption.encode', result=BYTES, properties=P, only_raises=True,
+                 ensures={'value': 'result == self.value'})
+    reg.contract('aiocoap.optiontypes:StringOption.encode', result=BYTES, properties=P, only_raises=True,
+                 ensures={'value': 'result == utf8_encode(self.value)'})
+    reg.contract('aiocoap.optiontypes:UintOption.encode', result=BYTES, properties=P, only_raises=True,
+                 requires=['0 <= self.value < 2**32'],
+                 ensures={'value': 'be_value(result) == self.value', 'minimal': 'implies(len(result) > 0, result[0] != 0)'})
+    reg.contract('aiocoap.optiontypes:BlockOption.encode', result=BYTES, properties=P, only_raises=True,
+                 requires=['0 <= self._value[0] < 2**20', '0 <= self._value[2] <= 7'],
+                 ensures={'value': 'be_value(result) == self._value[0] * 16 + (8 if self._value[1] else 0) + self._value[2]',
+                          'minimal': 'implies(len(result) > 0, result[0] != 0)'})
+    reg.contract('aiocoap.optiontypes:ContentFormatOption.encode', result=BYTES, properties=P, only_raises=True,
+                 requires=['0 <= self._value < 65536'],
+                 ensures={'value': 'be_value(result) == self._value', 'minimal': 'implies(len(result) > 0, result[0] != 0)'})
+
+    # ---- whole messages
+    def enc_exit(ex, s, entry, env, result):
+        evs = [e for e in s.log if e[0] == 'opt_encode']
+        if len(evs) != 1:
+            return [('one-options-encode', z3.BoolVal(False))]
+        opts = evs[0][2]
+        spec = ex.spec_val(s, 'datagram(self.mtype, self.code, self.mid, self.token, opts, self.payload)',
+                           env=dict(env, opts=opts), old_st=entry)
+        return [('rfc7252-section3', ex.eq(s, result, spec)),
+                ('options-of-this-message', evs[0][1].t == ex.spec_val(s, 'self.opt', env=env).t)]
+
+    reg.contract('aiocoap.message:Message.encode', result=BYTES, properties=P,
+                 requires=['self.version == 1', 'implies(self.mtype is not None, 0 <= self.mtype <= 3)',
+                           'implies(self.code is not None, 0 <= self.code <= 255)',
+                           'implies(self.mid is not None, 0 <= self.mid <= 65535)', 'len(self.token) <= 8'],
+                 raises={'TypeError': 'self.code is None or self.mtype is None or self.mid is None',
+                         'AssertionError': 'self.direction != Direction.OUTGOING', 'ValueError': MAY},
+                 only_raises=True, at_exit=enc_exit)
+
+    def dec_raise_post(ctx):
+        raised = [e for e in ctx.st.log if e[0] == 'opt_decode_raised']
+        hdr_bad = ctx.ev('len(rawdata) < 4 or rawdata[0] // 64 != 1')
+        return z3.Or(ctx.ex.truth(ctx.st, hdr_bad), z3.BoolVal(len(raised) > 0))
+
+    def dec_exit(ex, s, entry, env, result):
+        evs = [e for e in s.log if e[0] == 'opt_decode']
+        if len(evs) != 1:
+            return [('one-options-decode', z3.BoolVal(False))]
+        rest = ex.spec_val(s, 'rawdata[4 + rawdata[0] % 16:]', env=env)
+        msg_opt = ex.spec_val(s, 'result.opt', env=env, result=result)
+        pl = ex.spec_val(s, 'result.payload', env=env, result=result)
+        return [('options-from-rest', ex.eq(s, evs[0][2], rest)),
+                ('options-into-message', evs[0][1].t == msg_opt.t),
+                ('payload-is-parser-result', ex.eq(s, pl, evs[0][3]))]
+
+    reg.contract('aiocoap.message:Message.decode', params={'rawdata': BYTES, 'remote': Opt(Ref('Remote'))},
+                 result=Ref('Message'), properties=P,
+                 raises={'UnparsableMessage': MAY}, only_raises=True,
+                 raises_post={'UnparsableMessage': {'only-if-malformed': dec_raise_post}},
+                 ensures={'version': 'len(rawdata) >= 4 and rawdata[0] // 64 == 1',
+                          'type': 'result.mtype == (rawdata[0] // 16) % 4',
+                          'code': 'result.code == rawdata[1]',
+                          'mid': 'result.mid == rawdata[2] * 256 + rawdata[3]',
+                          'token': 'result.token == rawdata[4:4 + rawdata[0] % 16]',
+                          'remote': 'result.remote is remote',
+                          'direction': 'result.direction == Direction.INCOMING'},
+                 at_exit=dec_exit,
+                 replay={'kind': 'call', 'call': 'Message.decode(rawdata)', 'setup': DECODE_ORACLE})
